@@ -529,3 +529,58 @@ Section EndToEnd.
       destruct ti as [| | |[|x r]]; discriminate E.
   Qed.
 End EndToEnd.
+
+(* ------------------------------------------------------------------ *)
+(* obligations on a style table, and how they reach a looked-up style   *)
+(* ------------------------------------------------------------------ *)
+Lemma lookup_forallb (P : text * segs -> bool) tbl n s :
+  forallb P tbl = true -> lookup_style tbl n = Some s -> P (n, s) = true.
+Proof.
+  unfold lookup_style. intros T Lk.
+  destruct (find (fun e => text_eqb (fst e) n) tbl) as [e|] eqn:F; [|discriminate Lk].
+  cbn [option_map] in Lk. injection Lk as <-.
+  apply find_some in F as [Hin Hn]. apply text_eqb_eq in Hn. subst n.
+  rewrite forallb_forall in T. destruct e as [n s]. exact (T _ Hin).
+Qed.
+
+Fixpoint text_prefixb (p s : text) : bool :=
+  match p, s with
+  | [], _ => true
+  | x :: p', y :: s' => Z.eqb x y && text_prefixb p' s'
+  | _ :: _, [] => false
+  end.
+
+Definition SPACE : text := [115; 112; 97; 99; 101]%Z.              (* "space" *)
+Definition is_space_style (n : text) : bool := text_prefixb SPACE n.
+
+(* last-sibling flags of the ancestors and of the node itself are readable *)
+Definition flags_entry_ok (e : text * segs) : bool :=
+  match unpack (snd e) with
+  | Some g => anc_distinct g && last_distinct g
+  | None => false
+  end.
+(* ... and, for 6-segment (compact) styles, the has-children flag *)
+Definition hc_entry_ok (e : text * segs) : bool :=
+  match unpack (snd e) with
+  | Some g => hc_distinct g
+  | None => false
+  end.
+Definition is_six (e : text * segs) : bool := length (snd e) =? 6.
+
+Definition table_flags_ok (tbl : list (text * segs)) : bool :=
+  forallb (fun e => is_space_style (fst e) || flags_entry_ok e) tbl
+  && forallb (fun e => negb (is_six e) || hc_entry_ok e) tbl.
+
+Theorem table_flags_lookup tbl n s g :
+  table_flags_ok tbl = true -> lookup_style tbl n = Some s -> unpack s = Some g ->
+  (is_space_style n = false -> anc_distinct g = true /\ last_distinct g = true)
+  /\ (length s = 6 -> hc_distinct g = true).
+Proof.
+  unfold table_flags_ok. rewrite andb_true_iff. intros [A B] Lk U.
+  pose proof (lookup_forallb _ tbl n s A Lk) as A'.
+  pose proof (lookup_forallb _ tbl n s B Lk) as B'.
+  cbn [fst snd] in A', B'. unfold flags_entry_ok, hc_entry_ok, is_six in *. cbn [snd] in *.
+  rewrite U in *. split.
+  - intros NS. rewrite NS in A'. cbn [orb] in A'. apply andb_true_iff in A'. exact A'.
+  - intros L6. rewrite L6 in B'. exact B'.
+Qed.
